@@ -262,6 +262,11 @@ func (l *leadRun) dumpTok() string {
 
 func (l *leadRun) notifyTok() string {
 	var p []string
+	if l.w.slowNotify {
+		n, lc := l.w.noteN, l.w.noteLC
+		l.w.noteN, l.w.noteLC = nil, nil
+		return fmt.Sprintf("N %d %s LC %d %s", len(n), intsJoin(n), len(lc), intsJoin(lc))
+	}
 	for {
 		select {
 		case b := <-l.w.notify:
@@ -271,7 +276,7 @@ func (l *leadRun) notifyTok() string {
 		}
 		break
 	}
-	return fmt.Sprintf("N %d %s", len(p), strings.Join(p, " "))
+	return fmt.Sprintf("N %d %s LC 0", len(p), strings.Join(p, " "))
 }
 
 // pendingTok lists the replication requests now parked in the network
@@ -331,6 +336,7 @@ func runLeaderCase(rng *rand.Rand, thorough bool, out *bufio.Writer, st *stats, 
 	cfg := cfgs[rng.Intn(len(cfgs))]
 	maxAEs := []int{1, 2, 64}
 	w := newWorld(rng.Intn(4) == 0, rng.Intn(3) == 0, 1+rng.Intn(3), maxAEs[rng.Intn(len(maxAEs))])
+	w.slowNotify = rng.Intn(4) == 0 // a slow NotifyCh reader: unbuffered, read at observation points only
 	// image: the bootstrap configuration, then a few entries; optionally snapshotted and compacted
 	pay := 0
 	log := []entry{{idx: 1, term: 1, kind: 5, cfg: cfg}}
